@@ -10,7 +10,7 @@ CLAIMED = {
    text="Bounded exhaustive exploration of the real code: every automaton of FA(2,{a,b},<=12) and FA(3,{a,b},<=3) modulo renaming (thorough: + FA(3,2,4), FA(3,1,<=6), FA(4,1,<=4)), "
         "built as epsilon-NFA/NFA/DFA through add_* calls and through constructor arguments, under natural and salted global set orders and naming schemes int/str plus adversarial names "
         "(mixed types, names equal to the library's merged-state names, TRASH/TrashNode/Empty) on complete small layers, plus a family of 5-state cycle DFAs (Hopcroft worklist) and automata built through the constructor with a ready-made transition function; accepts() compared on all words <=3 (4 thorough) (+ foreign symbol, + epsilon spelling); "
-        "to_deterministic/remove_epsilon_transitions/minimize/copy compared by an exact product-BFS language equivalence and shape inspection.",
+        "to_deterministic/remove_epsilon_transitions/minimize/copy compared by an exact product-BFS language equivalence and shape inspection. Epsilon cases are also offered to the NFA class (refusal or obedience), automata are also built from a transition function alone and with a declared alphabet that mentions the epsilon spelling.",
    note=NOTE, technique="explicit-state enumeration of all small automata x order policies x naming schemes against a reference model (exact language equivalence)",
    design="DESIGN.md §3 C01"),
  "C02": dict(
@@ -22,24 +22,24 @@ CLAIMED = {
  "C03": dict(
    text="Unary operations (complement, reverse, kleene_star and operator forms) on every epsilon-NFA of FA(2,2,<=12) and FA(3,2,<=3) modulo renaming; binary operations (intersection, difference, "
         "union, concatenate and operator forms) on all ordered pairs of small pools with shared state names, overlapping/disjoint alphabets and the same object as both operands; every result "
-        "compared exactly (product BFS over subset automata) with the set-theoretic result, operands snapshotted before/after; NFA- and DFA-typed operands, reserved state names and a & -a included.",
+        "compared exactly (product BFS over subset automata) with the set-theoretic result, operands snapshotted before/after; NFA- and DFA-typed operands, reserved state names and a & -a included. Extra layers: state names whose pair spellings coincide; operands over whole symbols spelt like regex operators.",
    note=NOTE, technique="explicit-state enumeration of all small operands / operand pairs x order policies against reference set algebra (exact)",
    design="DESIGN.md §3 C03"),
  "C06": dict(
    text="to_regex() on every epsilon-NFA of FA(2,2,<=12) and FA(3,2,<=3) modulo renaming (thorough: up to 4 states), plain-token symbols, under natural and salted set orders (state elimination "
-        "order follows set order), plus reserved state names and trim 4-state automata with 5 transitions (cycles through two eliminated states, parallel edges): the returned tree (walked through head/sons, own semantics), regex.accepts and regex.to_epsilon_nfa() are each compared exactly with the automaton's language.",
+        "order follows set order), plus reserved state names and trim 4-state automata with 5 transitions (cycles through two eliminated states, parallel edges): the returned tree (walked through head/sons, own semantics), regex.accepts and regex.to_epsilon_nfa() are each compared exactly with the automaton's language. Extra layer: whole symbols spelt like regex operators ($, +).",
    note=NOTE, technique="explicit-state enumeration of all small automata x elimination orders against a reference regex/NFA semantics (exact)",
    design="DESIGN.md §3 C06"),
  "C05": dict(
    text="Every string of <= 4 tokens (5 thorough) over the documented token alphabet incl. blanks, both spellings of each operator, epsilon/$ and escaped operators -- well-formed, ill-formed and "
         "unspecified texts classified by an independent tokenizer + recursive-descent parser -- and every regex AST of <= 5 nodes (6 thorough) in 12 renderings (minimal / redundant parentheses x "
         "concatenation and union spellings): construction outcome / exception type, the tree (head/sons), accepts, to_epsilon_nfa (exact), to_cfg (words <= 4 + contains), str() re-parse; "
-        "union/concatenate/kleene_star on all ordered pairs of ASTs <= 3 nodes incl. the operands' answers afterwards.",
+        "union/concatenate/kleene_star on all ordered pairs of ASTs <= 3 nodes incl. the operands' answers afterwards. The token alphabet includes the escaped blank; to_cfg is also run with starting symbols named like its own fresh variables.",
    note=NOTE, technique="exhaustive enumeration of token strings and regex ASTs against a reference parser + denotational semantics (exact NFA equivalence)",
    design="DESIGN.md §3 C05"),
  "C07": dict(
    text="Every pattern of the generated documented subset (29 atoms x 13 quantifiers; binary combinations; quantified groups; nested quantified groups; pruned depth 3 in thorough; patterns "
-        "Python rejects) x 477 strings (all of length <= 2 over a 12-letter boundary alphabet, all of length <= 4 over {a,b,0,-}): PythonRegex(p).accepts(s) == (re.fullmatch(p, s) is not None).",
+        "Python rejects) x 477 strings (all of length <= 2 over a 12-letter boundary alphabet, all of length <= 4 over {a,b,0,-}): PythonRegex(p).accepts(s) == (re.fullmatch(p, s) is not None). Atoms include hyphen-first, bracket-literal and newline sets; the string alphabet includes newline, '[', n, t.",
    note="Trusted: CPython's re (the property's own oracle). Patterns outside the generated family are not claimed.",
    technique="exhaustive enumeration of the pattern family x string family against CPython re as reference model",
    design="DESIGN.md §3 C07"),
@@ -59,13 +59,13 @@ CLAIMED = {
  "C10": dict(
    text="closure / positive closure / reverse on every grammar of the iso-reduced pool CFG(2,2,2,<=3) (fresh and previously queried operand); union / concatenate on ordered pairs from CFG(2,2,2,<=2) "
         "incl. the same object twice; substitute with one terminal, two terminals mapped to the same grammar object, identity, absent terminal; adversarial names (#SUBS#, #STARTUNION#, #0UNION#); "
-        "results compared with set algebra on L<=4 / an own grammar composition.",
+        "results compared with set algebra on L<=4 / an own grammar composition. Also: variables of different types with one spelling, and the start-symbol-less grammar CFG() as operand.",
    note="Trusted: CFG oracle; words <= 4.",
    technique="exhaustive enumeration of operand grammars / pairs against reference set algebra on bounded languages",
    design="DESIGN.md §3 C10"),
  "C11": dict(
    text="Left: every grammar of the pool CFG(2,2,2,<=2) / every PDA of PDA(2,2,2,<=t) with final states; right: every automaton of FA(2,{a,b},<=1) (thorough <=2) as every class it is valid for, over "
-        "{a,b} and {b,c}, and 20 regexes; non-regular operands must raise NotImplementedError; result language = {w in L(left) : right accepts w} on all words <= 4 (CFG) / <= 3 (PDA, exact summary oracle).",
+        "{a,b} and {b,c}, and 20 regexes; non-regular operands must raise NotImplementedError; result language = {w in L(left) : right accepts w} on all words <= 4 (CFG) / <= 3 (PDA, exact summary oracle). Also: values of different types with one spelling, and every empty intersection used again (intersected, converted).",
    note="Trusted: CFG / PDA / NFA oracles (cross-checked in selftest).",
    technique="exhaustive enumeration of operand pairs against reference CFG / PDA / NFA semantics",
    design="DESIGN.md §3 C11"),
@@ -77,13 +77,13 @@ CLAIMED = {
    design="DESIGN.md §3 C12"),
  "C13": dict(
    text="Every PDA of PDA(2 states, stack {Z,X}, pushes <= 2, <= 2 transitions, any finals) modulo letter swap (thorough: 3 transitions, pushes 3, 3 states) with plain and reserved names, and every "
-        "grammar of CFG(2,2,2,<=3) incl. a variable named #TERM#a under 4 orders, every one-state PDA with 3 transitions, PDAs assembled call by call and conversions of conversions: to_pda, to_cfg, to_final_state, to_empty_stack compared on all words <= 3 with an exact summary-fixpoint PDA oracle applied to the extracted results.",
+        "grammar of CFG(2,2,2,<=3) incl. a variable named #TERM#a under 4 orders, every one-state PDA with 3 transitions, PDAs assembled call by call and conversions of conversions: to_pda, to_cfg, to_final_state, to_empty_stack compared on all words <= 3 with an exact summary-fixpoint PDA oracle applied to the extracted results. Also: values of different types with one spelling (variables, terminals, states, stack symbols), CFG() and PDAs given as a ready-made transition function.",
    note="Trusted: PDA summary oracle (cross-checked against configuration BFS in selftest), CFG oracle.",
    technique="exhaustive enumeration of small PDAs / grammars x order policies against an exact PDA acceptance oracle",
    design="DESIGN.md §3 C13"),
  "C14": dict(
    text="Every grammar of CFG(2,2,2,<=4), CFG(2,2,3,<=2), CFG(3,2,2,<=3) modulo renaming without useless symbols: FIRST/FOLLOW on variables and the LL(1) verdict against textbook fixpoints; for LL(1) "
-        "grammars the parser on every word <= 4 (+ unknown symbol): tree iff member, NotParsableException otherwise, trees validated.",
+        "grammars the parser on every word <= 4 (+ unknown symbol): tree iff member, NotParsableException otherwise, trees validated. Also: a variable and a terminal called '$', every grammar as a list naming each production twice and after eliminate_unit_productions().",
    note="Trusted: FIRST/FOLLOW/PREDICT reference (second brute-force formulation in selftest), CFG oracle.",
    technique="exhaustive enumeration of small grammars x words against textbook LL(1) reference sets",
    design="DESIGN.md §3 C14"),
@@ -95,32 +95,32 @@ CLAIMED = {
    design="DESIGN.md §3 C15"),
  "C16": dict(
    text="Every transducer of FST(2 states, input {a,b,eps}, outputs {-,x,y,xy}, <= 2 transitions (3 thorough), any start/final sets) whose epsilon cycles write nothing: translate on all inputs <= 3; "
-        "kleene_star; union / concatenate on all ordered pairs of the <= 1 transition pool with shared str, int and prefix-digit state names, a state named like the star hub, output symbols whose concatenations coincide; to_fst on FA(2,{a,b},<=3); relations of extracted results compared exactly per input.",
+        "kleene_star; union / concatenate on all ordered pairs of the <= 1 transition pool with shared str, int and prefix-digit state names, a state named like the star hub, output symbols whose concatenations coincide; to_fst on FA(2,{a,b},<=3); relations of extracted results compared exactly per input. Also: state names of different types with one spelling, outputs given as tuples.",
    note="Trusted: FST relation reference (BFS; path enumeration cross-check in selftest).",
    technique="exhaustive enumeration of small transducers / pairs x inputs against a reference transduction relation",
    design="DESIGN.md §3 C16"),
  "C17": dict(
    text="Every reduced-form indexed grammar over S,A,B / f,g with <= 3 rules (4 thorough) modulo renaming x every permutation of the rule list x optim 0..8 (random.shuffle owned), queried twice and after "
-        "remove_useless_rules(), plus duplication chains over 4 non-terminals and push/pop chains of <= 5 steps with an extra consumption rule, against an exact stack-profile fixpoint; intersection with 12 regular languages (Regex/DFA/eps-NFA) against an own triple construction. Slow (exponential) intersections are counted as inconclusive.",
+        "remove_useless_rules(), plus duplication chains over 4 non-terminals and push/pop chains of <= 5 steps with an extra consumption rule, against an exact stack-profile fixpoint; intersection with 12 regular languages (Regex/DFA/eps-NFA) against an own triple construction. Slow (exponential) intersections are counted as inconclusive. Also: start variable called A, every rule listed twice, clashing spellings (terminal spelt like a non-terminal, non-terminal 'epsilon', indices 1/'1'), results intersected again.",
    note="Trusted: stack-profile fixpoint (cross-checked by bounded derivations in selftest).",
    technique="exhaustive enumeration of small indexed grammars x rule orders x heuristics against an exact emptiness fixpoint",
    design="DESIGN.md §3 C17"),
  "C18": dict(
    text="All 317k ordered pairs of consistently typed feature structures of depth <= 2 with <= 1 shared node: unify raises iff the reference MGU clashes, the receiver's observable (paths, atoms, sharing) equals "
-        "the reference MGU, both argument orders agree; every FCFG from a useful skeleton of CFG(2,2,2,<=3) with <= 2 annotated occurrences (F=p/q/?x) and from two 3-variable agreement skeletons with <= 4 annotated occurrences x words <= 3 against the instantiate-to-CFG oracle; feature-free FCFG vs CFG.contains.",
+        "the reference MGU, both argument orders agree; every FCFG from a useful skeleton of CFG(2,2,2,<=3) with <= 2 annotated occurrences (F=p/q/?x) and from two 3-variable agreement skeletons with <= 4 annotated occurrences x words <= 3 against the instantiate-to-CFG oracle; feature-free FCFG vs CFG.contains. Also: a lexical-ambiguity family (one head and body under two annotations, a variable called Gamma) and every grammar text with the productions of one head merged on one line.",
    note="Trusted: union-find MGU reference, CFG oracle.",
    technique="exhaustive enumeration of feature-structure pairs and annotated grammars against reference unification / instantiation",
    design="DESIGN.md §3 C18"),
  "C19": dict(
    text="Explicit-state BFS over call histories on real objects: 20 seed objects (automata, regexes, grammars, PDAs, transducers, indexed grammars), alphabets of 6-27 operations (queries, conversions, conversions of "
         "conversions, the same object as both operands, mutations of returned objects), depth <= 3 (4 thorough); states deduplicated by a deep structural fingerprint (private caches, aliasing); in every state the "
-        "observation battery on the seed equals the battery on a fresh twin, the seed's public structure is unchanged, and every derived (possibly mutated) automaton / grammar answers according to its own current structure.",
+        "observation battery on the seed equals the battery on a fresh twin, the seed's public structure is unchanged, and every derived (possibly mutated) automaton / grammar answers according to its own current structure. The indexed-grammar alphabet includes the public mutators of the seed's own Rules object; the PDA alphabet includes emptying the dictionary returned by to_dict().",
    note="Trusted: fingerprint soundness (equal fingerprints => equal futures under a fixed order policy); semantic comparison of returned objects.",
    technique="explicit-state breadth-first search over operation sequences on the real objects with state hashing and a fresh-twin differential oracle",
    design="DESIGN.md §3 C19"),
  "C20": dict(
    text="networkx round trip of every eps-NFA of FA(2,{a,b},<=4) and FA(3,2,<=2) with isolated states under 5 naming schemes (incl. helper-node names, odd strings) and odd symbol values, of PDA(2,2,2,<=2) and FST(2,<=2); "
-        "text round trip of CFG(2,2,2,<=3) under 5 spellings (VAR:/TER: markers, same spelling for a variable and a terminal); from_ebnf / from_regex on every text of 1-2 lines (3 strided) with bodies from all regex ASTs <= 3 nodes: boxes, box languages (exact), start box.",
+        "text round trip of CFG(2,2,2,<=3) under 5 spellings (VAR:/TER: markers, same spelling for a variable and a terminal); from_ebnf / from_regex on every text of 1-2 lines (3 strided) with bodies from all regex ASTs <= 3 nodes: boxes, box languages (exact), start box. Also: terminals spelt like epsilon markers, PDAs with a state called INITIAL_STACK_HIDDEN (with/without start stack symbol), EBNF texts without a line for S.",
    note="Trusted: extraction through public accessors, NFA/regex/CFG oracles.",
    technique="exhaustive enumeration of small machines / grammars / EBNF texts x naming schemes; structural and exact language comparison after the round trip",
    design="DESIGN.md §3 C20"),
